@@ -86,11 +86,11 @@ var specs = []CheckSpec{
 			{Fn: "VerifC18Slots", Quick: map[string]int{"PAIR": 1}, Thorough: map[string]int{"PAIR": 2}, Witness: []string{"bom", "several-imports"}, Native: true},
 			{Fn: "VerifC18Specs", Quick: map[string]int{"PL": 1}, Thorough: map[string]int{"PL": 2}, Witness: []string{"specs"}, Native: true},
 			{Fn: "VerifC18LongLines", Quick: map[string]int{"LENS": 4}, Thorough: map[string]int{"LENS": 4}, Witness: []string{"long-piece", "longer-than-a-read-buffer"}},
-			{Fn: "VerifC18NewlineInString", Quick: map[string]int{}, Thorough: map[string]int{}, Witness: []string{"newline-in-raw-string", "newline-in-interpreted-string"}, Native: true},
+			{Fn: "VerifC18NewlineInString", Quick: map[string]int{}, Thorough: map[string]int{}, Witness: []string{"newline-in-raw-string", "newline-in-interpreted-string", "carriage-return-in-raw-string"}, Native: true},
 			{Fn: "VerifC18Arbitrary", Quick: map[string]int{"N": 4}, Thorough: map[string]int{"N": 6}, Witness: []string{"ran", "syntax-error", "nul"}, Native: true},
 		},
 		Bounds: map[string]string{
-			"quick":    "files with a line comment, block comment, blank run or newline run of 100 / 4095 / 4096 / 5000 / 9000 bytes before, between or after two imports (longer than any read buffer); valid files from 4 token skeletons (no import / single / group of two / single+group+empty group) x 5 declaration tails x optional BOM, with one separator slot at a time ranging over its full menu (blanks, semicolons, CRLF, // and /* */ comments with a symbolic body byte); all alias forms x raw/interpreted paths with <= 1 symbolic byte; arbitrary tails of <= 4 symbolic bytes after 5 prefixes, both reportSyntaxError values; an import path of two symbolic letters with a raw newline (or CR LF) before, between or after them, in an interpreted string (a syntax error) and in a raw string (valid), in 4 import positions",
+			"quick":    "files with a line comment, block comment, blank run or newline run of 100 / 4095 / 4096 / 5000 / 9000 bytes before, between or after two imports (longer than any read buffer); valid files from 4 token skeletons (no import / single / group of two / single+group+empty group) x 5 declaration tails x optional BOM, with one separator slot at a time ranging over its full menu (blanks, semicolons, CRLF, // and /* */ comments with a symbolic body byte); all alias forms x raw/interpreted paths with <= 1 symbolic byte; arbitrary tails of <= 4 symbolic bytes after 5 prefixes, both reportSyntaxError values; an import path of two symbolic letters with a raw newline (or CR LF) before, between or after them, in an interpreted string (a syntax error) and in a raw string (valid; carriage returns are not part of the reported path, as in go/scanner), in 4 import positions",
 			"thorough": "two separator slots vary simultaneously; paths with <= 2 symbolic bytes; arbitrary tails <= 6 bytes",
 		},
 		Assumptions: append([]string{"validity of generated files and the expected import list are cross-checked against go/parser (ImportsOnly) on every natively replayed path witness"}, commonAssumptions...),
